@@ -430,18 +430,19 @@ def random_datagram(rng) -> Dg:
 
 # ------------------------------------------------------------------------------------------------
 def run_history(ctx, kind, start, datagrams, pairs, name="A"):
-    """delivers a history to a fresh handler; oracle on every delivery; model lines appended"""
+    """delivers a history (list of Dg) to a fresh handler; oracle on every delivery; model lines appended"""
     hd = Handler(kind, connected=start[0], sn=start[1])
     pairs.append((f"reset {int(start[0])} {start[1]}", "ok"))
     history = {"start": list(start), "datagrams": []}
     exp_registry = {}
-    for d in datagrams:
+    for dg in datagrams:
         before = (hd.h.hstrp_connected, hd.h.sn)
-        history["datagrams"].append(d)
-        line, outs, ret = hd.deliver(d, ADDR_A)
-        pairs.append((f"rx {name} {kind} {abstract(d)}", line))
-        oracle(ctx, hd, before, d, outs, ret, history, exp_registry)
-        ctx.count(f"msg:{'none' if abstract(d) == 'none' else abstract(d).split(' ')[1]}")
+        history["datagrams"].append(dg)
+        line, outs, ret = hd.deliver(dg.data, ADDR_A)
+        ab = abstract(dg.data)
+        pairs.append((f"rx {name} {kind} {ab}", line))
+        oracle(ctx, hd, before, dg, outs, ret, history, exp_registry)
+        ctx.count(f"msg:{'none' if ab == 'none' else ab.split(' ')[1]}")
     return hd
 
 
@@ -449,26 +450,27 @@ def dfs(ctx, kind, start, classes, maxlen, pairs, flush):
     """all sequences up to maxlen over `classes`, sharing prefixes by snapshot/restore of the handler"""
     hd = Handler(kind, connected=start[0], sn=start[1])
     pairs.append((f"reset {int(start[0])} {start[1]}", "ok"))
-    lines = [f"rx A {kind} {abstract(d)}" for _, d in classes]
+    lines = [f"rx A {kind} {abstract(d.data)}" for _, d in classes]
+    nontriv = [abstract(d.data) != "none" for _, d in classes]
     history = {"start": list(start), "datagrams": []}
     count = 0
     path = []
 
     def rec(depth, exp_registry):
         nonlocal count
-        for ci, (cname, d) in enumerate(classes):
+        for ci, (cname, dg) in enumerate(classes):
             snap = hd.snapshot()
             before = (hd.h.hstrp_connected, hd.h.sn)
-            history["datagrams"].append(d)
+            history["datagrams"].append(dg)
             if depth + 1 < maxlen:
                 pairs.append(("push", "ok"))
-            line, outs, ret = hd.deliver(d, ADDR_A)
+            line, outs, ret = hd.deliver(dg.data, ADDR_A)
             pairs.append((lines[ci], line))
             reg = dict(exp_registry)
-            oracle(ctx, hd, before, d, outs, ret, history, reg)
+            oracle(ctx, hd, before, dg, outs, ret, history, reg)
             count += 1
             path.append(ci)
-            ctx.case((kind, start, tuple(path)), nontrivial=abstract(d) != "none")
+            ctx.case((kind, start, tuple(path)), nontrivial=nontriv[ci])
             if depth + 1 < maxlen:
                 rec(depth + 1, reg)
                 pairs.append(("pop", "ok"))
@@ -488,15 +490,15 @@ def dfs(ctx, kind, start, classes, maxlen, pairs, flush):
     return count
 
 
-def pingpong(ctx, kind, first, conn_a, conn_b, pairs, max_rounds=6):
-    """deliver `first` to A, A's answers to B, B's answers to A, …; returns the number of deliveries rounds
+def pingpong(ctx, kind, first: bytes, conn_a, conn_b, pairs, max_rounds=6):
+    """deliver `first` to A, A's answers to B, B's answers to A, …; returns the number of delivery rounds
     until nothing is sent any more (None if still talking after max_rounds)"""
     a = Handler(kind, connected=conn_a)
     b = Handler(kind, connected=conn_b)
     # the model keeps A and B; reset sets both to the same flag, so set B by a connect/close-ack first if needed
     pairs.append((f"reset {int(conn_a)} 0", "ok"))
     if conn_b != conn_a:
-        setter = hstrp(0x05) if conn_b else hstrp(0x09)
+        setter = raw_hstrp(0x05) if conn_b else raw_hstrp(0x09)
         b2 = Handler(kind, connected=conn_a)
         line, _, _ = b2.deliver(setter, ADDR_A)
         pairs.append((f"rx B {kind} {abstract(setter)}", line))
@@ -508,13 +510,18 @@ def pingpong(ctx, kind, first, conn_a, conn_b, pairs, max_rounds=6):
             line, outs, ret = hd.deliver(d, addr)
             pairs.append((f"rx {name} {kind} {abstract(d)}", line))
             if isinstance(ret, BaseException):
-                ctx.fail("raises", {"pingpong": first.hex(), "kind": kind}, f"datagram_received raised {type(ret).__name__} during the exchange")
+                ctx.fail("raises", {"pingpong": first.hex(), "kind": kind, "connected": [conn_a, conn_b]}, f"datagram_received raised {type(ret).__name__} during the exchange")
                 return rnd
             nxt += [o for o, _ in outs]
         if not nxt:
             return rnd + 1
         inbox, who = nxt, 1 - who
     return None
+
+
+def is_heartbeat_class(data: bytes) -> bool:
+    """raw reading of the type octet: heartbeat bit without connect bit"""
+    return len(data) >= 6 and data[:2] == b"2B" and bool(data[3] & 0x02) and not (data[3] & 0x04)
 
 
 def run(ctx):
@@ -530,18 +537,20 @@ def run(ctx):
 def _run(ctx):
     ctx.rule = (
         "datagram histories delivered to HSTRPDatagramProtocol / RRSDatagramProtocol with a recording transport: corpus "
-        "(ack ping-pong of the repaired defect), every sequence up to length 4 over 20 datagram classes (both tiers) and up "
-        "to length 6 over the 12 core classes (thorough) from start states connected x {0, 0xFFFD, 0xFFFE} "
-        "(prefixes shared by snapshot/restore), two composed handlers for every class x connected flags, random histories up "
-        "to 200 datagrams with random type bits / S/N / options / RRS opcodes / radio ids, random truncation and 1-3 bit "
-        "flips. Model input = abstraction of what the real HSTRP.from_bytes returns. A delivery is non-trivial when the "
-        "datagram parses; distinct = distinct (start state, datagram sequence)"
+        "(ack ping-pong of the repaired defect, two-octet S/N), every sequence up to length 4 over 20 datagram classes (both "
+        "tiers; three S/N variants: small, all >= 0x0100, extremes) and up to length 6 over the 12 core classes (thorough) "
+        "from start states connected x {0, 0xFFFD, 0xFFFE} (prefixes shared by snapshot/restore), two composed handlers for "
+        "every class x connected flags, random histories up to 200 datagrams with random type bits / S/N over the whole 16-bit "
+        "range / options / RRS opcodes / radio ids, random truncation and 1-3 bit flips. The oracle reads the datagram as it was "
+        "built (type octet, S/N octets, generator's options / RRS fields), not the library's parse; the model input is the "
+        "abstraction of what the real HSTRP.from_bytes returns. Non-trivial = the datagram parses; distinct = distinct "
+        "(start state, datagram sequence)"
     )
     ctx.trusted_base += [
         "Lean 4.33 kernel",
         "tools/extract_hstrphandler.py (type-octet graphs, RRS constants, three golden datagrams from the library's serialisers)",
         "hand-written model of the two datagram_received methods (Model/HstrpHandler.lean) tied to the code by this run's correspondence",
-        "HSTRP.from_bytes / as_bytes are used as they are (their byte-exact model is C12's): the model input is derived from the real parser's result",
+        "HSTRP.from_bytes / as_bytes are used as they are (their byte-exact model is C12's): the model input is derived from the real parser's result; the oracle does not use it for datagrams that are well-formed by construction",
         "asyncio delivery order and timers (periodic_maintenance) are outside the model: one step per datagram",
     ]
     ctx.assumptions += [
@@ -550,8 +559,10 @@ def _run(ctx):
         "'an acknowledgement' = a message with the ack bit that is not heartbeat-class",
         "two composed handlers: heartbeats are echoed by design while connected, so an exchange started by a heartbeat between "
         "two connected handlers does not end; every other exchange ends after one reply",
+        "well-formed = type octet < 64, documented option types, one of the five RRS opcodes or the RCP test vector as payload",
     ]
     pairs = []
+    boosted = ctx.boost > 1
 
     def flush(component="hstrp.sequences"):
         if pairs and not ctx.search_only and ctx.driver_ok:
@@ -562,58 +573,62 @@ def _run(ctx):
     for name, seq in CORPUS:
         for kind in ("rrs", "base"):
             run_history(ctx, kind, (False, 0), seq, pairs)
-            ctx.case(("corpus", name, kind), sample={"corpus": name, "datagrams": [d.hex() for d in seq]} if kind == "rrs" else None)
+            ctx.case(("corpus", name, kind), sample={"corpus": name, "datagrams": [d.data.hex() for d in seq]} if kind == "rrs" else None)
     flush("hstrp.corpus")
     # ---- two composed handlers (ping-pong)
     for kind in ("rrs", "base"):
-        for cname, d in CLASSES:
-            for ca in (False, True):
-                for cb in (False, True):
-                    rounds = pingpong(ctx, kind, d, ca, cb, pairs)
-                    ctx.case(("pingpong", kind, cname, ca, cb))
-                    pdu = parse(d)
-                    hb_class = pdu is not None and not pdu.pkt_type.is_connect and pdu.pkt_type.is_heartbeat
-                    ctx.count(f"pingpong:{'endless-heartbeat' if rounds is None else 'rounds=' + str(rounds)}")
-                    if hb_class:
-                        continue  # echo by design: lasts as long as both are connected
-                    if rounds is None or rounds > 2:
-                        ctx.fail("pingpong", {"pingpong": d.hex(), "kind": kind, "connected": [ca, cb]}, "two composed handlers keep answering each other", expected="quiescent after one reply", actual=rounds)
+        for variant in (0, 1):
+            for cname, dg in classes(variant):
+                for ca in (False, True):
+                    for cb in (False, True):
+                        rounds = pingpong(ctx, kind, dg.data, ca, cb, pairs)
+                        ctx.case(("pingpong", kind, variant, cname, ca, cb))
+                        ctx.count(f"pingpong:{'endless-heartbeat' if rounds is None else 'rounds=' + str(rounds)}")
+                        if is_heartbeat_class(dg.data):
+                            continue  # echo by design: lasts as long as both are connected
+                        if rounds is None or rounds > 2:
+                            ctx.fail("pingpong", {"pingpong": dg.data.hex(), "kind": kind, "connected": [ca, cb]}, "two composed handlers keep answering each other", expected="quiescent after one reply", actual=rounds)
     flush("hstrp.pingpong")
-    # ---- exhaustive sequences
+    # ---- exhaustive sequences: three start states, each with its own S/N variant
     starts = [(False, 0), (True, 0xFFFD), (False, 0xFFFE)]
     full_len = 4
-    if ctx.boost > 1 and not ctx.thorough():
-        full_len = 5
     for si, start in enumerate(starts):
         L_here = full_len if si == 0 else full_len - 1
-        n = dfs(ctx, "rrs", start, CLASSES, L_here, pairs, flush)
-        ctx.count(f"exhaustive:rrs:start={start}:len<={L_here}", n)
-    n = dfs(ctx, "base", (False, 0), CLASSES, full_len - 1, pairs, flush)
-    ctx.count(f"exhaustive:base:len<={full_len - 1}", n)
+        n = dfs(ctx, "rrs", start, classes(si), L_here, pairs, flush)
+        ctx.count(f"exhaustive:rrs:start={start}:sn-variant={si}:len<={L_here}", n)
+    n = dfs(ctx, "base", (False, 0), classes(1), full_len - 1, pairs, flush)
+    ctx.count(f"exhaustive:base:sn-variant=1:len<={full_len - 1}", n)
     flush()
     if ctx.thorough():
-        n = dfs(ctx, "rrs", (False, 0xFFFC), CLASSES[:N_CORE], 6, pairs, flush)
+        n = dfs(ctx, "rrs", (False, 0xFFFC), classes(ctx.seed % 3)[:N_CORE], 6, pairs, flush)
         ctx.count("exhaustive:rrs:core12:len<=6", n)
+        flush()
+    elif boosted:
+        # failing-input search after a broken proof / correspondence: deeper over the core classes, bounded
+        for v in (1, 2):
+            n = dfs(ctx, "rrs", (False, 0xFFFC), classes(v)[:N_CORE], 5, pairs, flush)
+            ctx.count(f"exhaustive:rrs:core12:sn-variant={v}:len<=5", n)
         flush()
     # plain (no snapshot/restore) replays of all short sequences: guards the prefix sharing itself
     import itertools
 
+    cl = classes((ctx.seed + 1) % 3)
     for Lq in (1, 2, 3):
-        for seq in itertools.product(range(len(CLASSES)), repeat=Lq):
+        for seq in itertools.product(range(len(cl)), repeat=Lq):
             if Lq == 3 and (seq[0] * 7 + seq[1] * 3 + seq[2] + ctx.seed) % 4:
                 continue
-            run_history(ctx, "rrs", (False, 0), [CLASSES[i][1] for i in seq], pairs)
+            run_history(ctx, "rrs", (False, 0), [cl[i][1] for i in seq], pairs)
             ctx.case(("plain", seq))
     flush("hstrp.plain-sequences")
-    # ---- random histories
-    nrand = ctx.budget(500, 6000)
+    # ---- random histories (a boosted search is capped: quick stays within a few minutes)
+    nrand = (500 if not ctx.thorough() else 6000) * min(ctx.boost, 3)
     for i in range(nrand):
         length = ctx.rng.choice([1, 3, 10, 40, 100, 200]) if i % 7 else 200
         kind = "rrs" if i % 5 else "base"
         start = (ctx.rng.random() < 0.3, ctx.rng.choice([0, 0, 1, 0xFFFD, 0xFFFE, 0xFF00]))
         seq = [random_datagram(ctx.rng) for _ in range(length)]
         hd = run_history(ctx, kind, start, seq, pairs)
-        ctx.case(("random", kind, start, tuple(seq)), sample={"kind": kind, "start": list(start), "length": length, "first": [d.hex() for d in seq[:3]], "end_state": hd.state()} if length >= 40 else None)
+        ctx.case(("random", kind, start, tuple(d.data for d in seq)), sample={"kind": kind, "start": list(start), "length": length, "first": [d.data.hex() for d in seq[:3]], "end_state": hd.state()} if length >= 40 else None)
         if len(pairs) > 300000:
             flush("hstrp.random")
     flush("hstrp.random")
@@ -642,14 +657,13 @@ def replay(obj):
     c = C()
     pairs = []
     if "datagrams" in inp:
-        run_history(c, inp.get("handler", "rrs"), tuple(inp.get("start", [False, 0])), [bytes.fromhex(d) for d in inp["datagrams"]], pairs)
+        run_history(c, inp.get("handler", "rrs"), tuple(inp.get("start", [False, 0])), [Dg.unjson(d) for d in inp["datagrams"]], pairs)
     elif "pingpong" in inp:
         ca, cb = inp.get("connected", [False, False])
-        rounds = pingpong(c, inp.get("kind", "rrs"), bytes.fromhex(inp["pingpong"]), ca, cb, pairs, max_rounds=8)
+        first = bytes.fromhex(inp["pingpong"])
+        rounds = pingpong(c, inp.get("kind", "rrs"), first, ca, cb, pairs, max_rounds=8)
         print("exchange ended after", rounds, "rounds" if rounds is not None else "(still talking after 8 rounds)")
-        pdu = parse(bytes.fromhex(inp["pingpong"]))
-        hb = pdu is not None and not pdu.pkt_type.is_connect and pdu.pkt_type.is_heartbeat
-        if not hb and (rounds is None or rounds > 2):
+        if not is_heartbeat_class(first) and (rounds is None or rounds > 2):
             c.failures.append(("pingpong", "two composed handlers keep answering each other", 2, rounds))
     else:
         print("no input recorded (proof/correspondence record):", json.dumps(obj.get("no_longer_checks") or obj.get("correspondence_differences"))[:2000])
